@@ -27,10 +27,23 @@
   expansion) and histories of runtime writes on it — a write is visible exactly
   in the subtree of the role it was written on, for all trees and all histories;
   tied by differential runs on trees loaded through the real ProcessTemplates.
+
+  Third part (Model/VarsEnv, Proofs/VarsEnv): the writes the ENVIRONMENT itself
+  performs on its transitions (run number, run time stamps, copies of
+  configuration-store values, …). `Gen.C14EnvWrites.table` enumerates them by go/ast
+  with the KIND of map each key is written to; `C14_env_writes_are_code` identifies
+  the model's table with it, the model of a transition interprets that table, and
+  the theorems say: copies of configuration-store values are vars of the root role,
+  a transition never touches the user-var hierarchy of any role for any key but
+  the run-time keys, so a user-supplied value keeps winning at every role at every
+  moment. Tied by differential runs on a real Environment driven through
+  TryTransition.
 -/
 import ControlModel.Gen.VarsFacts
+import ControlModel.Gen.C14EnvWrites
 import ControlModel.Proofs.Vars
 import ControlModel.Proofs.VarsTree
+import ControlModel.Proofs.VarsEnv
 import ControlModel.Spec.C14
 
 open Vars
@@ -495,6 +508,193 @@ theorem C14_global_write_reaches_all (a : Nat) (x : Addr) (op : Op) (rest : Addr
     (Write.mk (a :: x) true op).target = [a] ∧ isAnc (Write.mk (a :: x) true op).target (a :: rest) = true := by
   simp [Write.target, isAnc]
 
+/-! ## what the environment itself writes on its transitions
+
+  `envWriteTable` = every write of core/environment to the maps its workflow resolves against, as rows
+  (context, guards, target level, KIND of map, set/del, key, value source); `fire` interprets the rows of
+  the four FSM callbacks, `create` those of newEnvironment; `snapshots` = the environment after creation and
+  after every item of a schedule of transitions and runtime writes. -/
+
+/-- The model's table IS the go/ast enumeration of the code: every write site, in source order, with its
+    context, conditions, target, kind, key and value source. Publishing a key through another kind of map
+    (`SetRuntimeVar` instead of `GetVars().Set`, …), a new write, a changed condition: this breaks. -/
+theorem C14_env_writes_are_code : envWriteTable.map EnvWrite.code = Gen.C14EnvWrites.table := by
+  rfl
+
+/-- Every key the environment writes is written to the kind of map documented for it (`Spec.docKind`):
+    run number, last run number, cleanup counter and configuration-store copies are vars; the run time
+    stamps, state entry time, task results, requesting user and environment id are user kind. -/
+theorem C14_env_write_kinds_documented : ∀ w ∈ envWriteTable, docKind w.key = some w.kind := by
+  decide
+
+/-- Hence the documented table (what `Spec.envOk` replays) is the code's table. -/
+theorem C14_env_doc_table_is_code : docTable = envWriteTable := by
+  decide
+
+/-- The rule behind the kinds, by VALUE SOURCE rather than by key name: whatever the environment copies
+    out of the configuration store (`env.BaseConfigStack[…]`) it publishes as a VAR of the root role —
+    the rank of an ancestor's var, below every user var of every level. -/
+theorem C14_store_copies_are_vars :
+    ∀ w ∈ envWriteTable, (match w.src with | .store _ => true | _ => false) = true → w.kind = .vars ∧ w.tgt = .root := by
+  decide
+
+/-- The only user-kind writes of the environment on the root role or on itself carry the run-time keys. -/
+theorem C14_env_user_writes_are_runtime_keys : envWriteTable.all (rowOk runtimeUserKeys) = true := by
+  decide
+
+/-- The FSM callbacks and newEnvironment write on the root role and on the environment-wide maps only. -/
+theorem C14_env_callbacks_write_root_or_env :
+    ∀ w ∈ envWriteTable, w.ctx ∈ ["newEnvironment", "before_event", "leave_state", "enter_state", "after_event"] →
+      w.tgt ≠ .role := by
+  decide
+
+/-- FRAME for transitions: whatever the state, the event, the outcome of the task-level body — for every
+    key but the run-time keys, the user-var hierarchy of EVERY role (the role, its ancestors, the
+    environment) says after the transition what it said before. -/
+theorem C14_env_transition_keeps_user_vars (ev : EnvM.Ev) (bodyOk : Bool) (s : EnvSt) (a : Addr) (k : String)
+    (hk : runtimeUserKeys.contains k = false) :
+    userView (fire envWriteTable ev bodyOk s).1 a k = userView s a k :=
+  userView_of_UEq (UEq_fire runtimeUserKeys k hk envWriteTable C14_env_user_writes_are_runtime_keys ev bodyOk s) a
+
+/-- USER-SUPPLIED OUTRANKS CONFIGURATION-STORE COPIES: a role that resolves `k` from a user var (its own,
+    an ancestor's, or one the user gave the environment) before a transition resolves it to the same value
+    after the transition — START_ACTIVITY with the store defining `k` included. -/
+theorem C14_user_supplied_outranks_store (ev : EnvM.Ev) (bodyOk : Bool) (s : EnvSt) (a : Addr) (c : List Node) (k v : String)
+    (hk : runtimeUserKeys.contains k = false) (hc : chainAt s.t a = some c)
+    (hv : get (uChain (pathOf c [s.envLv])) k = some v) :
+    ∃ c', chainAt (fire envWriteTable ev bodyOk s).1.t a = some c' ∧
+      lookup (consolidated (pathOf c' [(fire envWriteTable ev bodyOk s).1.envLv])) k = some v := by
+  have h := C14_env_transition_keeps_user_vars ev bodyOk s a k hk
+  simp only [userView, hc, Option.map_some] at h
+  cases hc' : chainAt (fire envWriteTable ev bodyOk s).1.t a with
+  | none => simp [hc'] at h
+  | some c' =>
+    simp only [hc', Option.map_some, Option.some.injEq] at h
+    exact ⟨c', rfl, consolidated_of_user _ k v (h.trans hv)⟩
+
+/-- WHOLE RUNS: the user supplies `k = v` at environment creation (`k` not a run-time key, no role / call /
+    plugin writes `k` during the run). Then at every moment — after creation, after every transition, legal
+    or not, completed or failed, after every runtime write — EVERY role resolves `k` to a user-kind value:
+    the one its user-var hierarchy gave right after the load (`v`, unless a role between it and the root
+    has a user var for `k`), whatever the configuration store holds. -/
+theorem C14_env_run_user_value_wins (sd sv u : KV) (t : Forest) (items : List Item) (k v : String)
+    (hk : runtimeUserKeys.contains k = false) (hitems : items.all (Item.avoids k) = true) (hu : lookup u k = some v) :
+    ∀ p ∈ snapshots envWriteTable sd sv u t items, ∀ a c, chainAt p.1.t a = some c →
+      ∃ x, lookup (consolidated (pathOf c [p.1.envLv])) k = some x ∧
+        userView (create envWriteTable sd sv u t) a k = some (some x) := by
+  intro p hp a c hc
+  have hE := UEq_snapshots runtimeUserKeys k hk envWriteTable C14_env_user_writes_are_runtime_keys sd sv u t items hitems p hp
+  have hcr := UEq_create runtimeUserKeys k hk envWriteTable C14_env_user_writes_are_runtime_keys sd sv u t
+  have henv : lookup p.1.envLv.userVars k = some v := by rw [hE.1, hcr.1, hu]
+  obtain ⟨x, hx⟩ := get_uChain_isSome_of_env c p.1.envLv k v henv
+  refine ⟨x, consolidated_of_user _ k x hx, ?_⟩
+  rw [← userView_of_UEq hE a]
+  simp [userView, hc, hx]
+
+/-- The model's record of one moment (what the driver prints). -/
+def C14.modelSnap (keys : List String) (special : KV) (tmpl : Option (KV × KV)) (p : EnvSt × String) : SnapObs :=
+  { state := p.1.st.name, res := p.2, roles := (p.1.roles tmpl).map (modelObs keys special) }
+
+/-- What the model of the code as it is observes over a whole run of an environment satisfies
+    `Spec.envOk` — at every moment every role shows what the precedence rule demands with the
+    environment's writes on their documented kinds, and no user-supplied value is ever displaced — for ALL
+    stores, user inputs, workflows and schedules. -/
+theorem C14_env_run_envOk (keys : List String) (special : KV) (sd sv u : KV) (t : Forest) (items : List Item)
+    (tmpl : Option (KV × KV)) (hclear : ∀ k ∈ keys, lookup special k = none) (hkeys : ∀ k ∈ u.map (·.1), k ∈ keys) :
+    envOk keys sd sv u t items tmpl ((snapshots envWriteTable sd sv u t items).map (C14.modelSnap keys special tmpl)) = true := by
+  unfold envOk
+  rw [C14_env_doc_table_is_code, Bool.and_eq_true]
+  constructor
+  · -- every moment, every role: the rule
+    generalize snapshots envWriteTable sd sv u t items = l
+    induction l with
+    | nil => rfl
+    | cons p rest ih =>
+      obtain ⟨s, res⟩ := p
+      simp only [List.map_cons, snapsOk, Bool.and_eq_true]
+      refine ⟨?_, ih⟩
+      have : (s.roles tmpl).map (modelObs keys special) = (s.roles tmpl).map (expected keys) :=
+        List.map_congr_left (fun r _ => C14_model_meets_spec_code keys special r hclear)
+      simp only [C14.modelSnap, this]
+      exact C14_caseOk_expected keys _
+  · -- no user-supplied value is displaced
+    simp only [snapshots, List.map_cons, userStable, List.all_eq_true]
+    intro k hkst
+    simp only [stableKeys, List.mem_filter, Bool.and_eq_true, Bool.not_eq_true'] at hkst
+    obtain ⟨hmem, hrk, hany⟩ := hkst
+    obtain ⟨v, hu⟩ := mem_keys_lookup u k hmem
+    have hitems : items.all (Item.avoids k) = true := by
+      rw [List.all_eq_true]
+      intro i hi
+      have := (List.any_eq_false.mp hany) i hi
+      cases i with
+      | trans ev ok => rfl
+      | write w =>
+        simp only [Item.key?, beq_iff_eq, Option.some.injEq] at this
+        simpa [Item.avoids] using this
+    have hkk : k ∈ keys := hkeys k hmem
+    have hall : ∀ p ∈ snapshots envWriteTable sd sv u t items,
+        sameAt k (C14.modelSnap keys special tmpl (create envWriteTable sd sv u t, "new")).roles
+          (C14.modelSnap keys special tmpl p).roles = true := by
+      intro p hp
+      simp only [C14.modelSnap, EnvSt.roles, rolesOf]
+      rw [preorder_snapshots envWriteTable sd sv u t items 0 [] p hp]
+      apply sameAt_filterMap
+      intro a _
+      have hE := UEq_snapshots runtimeUserKeys k hrk envWriteTable C14_env_user_writes_are_runtime_keys sd sv u t items hitems p hp
+      have hview := userView_of_UEq hE a
+      have hwin := C14_env_run_user_value_wins sd sv u t items k v hrk hitems hu
+      cases hc0 : chainAt (create envWriteTable sd sv u t).t a with
+      | none =>
+        left
+        have : chainAt p.1.t a = none := by
+          simp only [userView, hc0, Option.map_none, Option.map_eq_none_iff] at hview
+          exact hview
+        simp [this]
+      | some c0 =>
+        right
+        have hpc : ∃ c, chainAt p.1.t a = some c := by
+          simp only [userView, hc0, Option.map_some] at hview
+          cases hcp : chainAt p.1.t a with
+          | none => simp [hcp] at hview
+          | some c => exact ⟨c, rfl⟩
+        obtain ⟨c, hc⟩ := hpc
+        obtain ⟨r0, hr0, hp0⟩ := roleInOf_isSome [(create envWriteTable sd sv u t).envLv] tmpl c0 (chainAt_ne_nil _ a c0 hc0)
+        obtain ⟨r, hr, hpr⟩ := roleInOf_isSome [p.1.envLv] tmpl c (chainAt_ne_nil _ a c hc)
+        obtain ⟨x0, hx0, hv0⟩ := hwin (create envWriteTable sd sv u t, "new") (by simp [snapshots]) a c0 hc0
+        obtain ⟨x, hx, hv⟩ := hwin p hp a c hc
+        have hxx : x0 = x := by
+          rw [hv0] at hv
+          simpa using hv
+        have hstack : ∀ (q : RoleIn), (modelObs keys special q).stack = tabulate keys (lookup (consolidated q.path)) :=
+          fun q => rfl
+        refine ⟨r0, r, by simp [hr0], by simp [hc, hr], ?_, ?_⟩
+        · rw [hstack, hstack, lookup_tabulate _ _ _ hkk, lookup_tabulate _ _ _ hkk, hp0, hpr, hx0, hx, hxx]
+        · rw [hstack, lookup_tabulate _ _ _ hkk, hp0, hx0]; rfl
+    intro o ho
+    simp only [List.mem_cons, List.mem_map] at ho
+    rcases ho with rfl | ⟨p, hp, rfl⟩
+    · exact hall _ (by simp [snapshots])
+    · exact hall p (by simp [snapshots, hp])
+
+/-- The kind is what the property hangs on: the SAME rows with the configuration-store copies published as
+    user vars of the root (`SetRuntimeVar` instead of `GetVars().Set`) violate the hypothesis of the frame
+    theorem, and a user-supplied value IS displaced — store `lhc_period = LHCstore`, user
+    `lhc_period = LHCuser`, DEPLOY, CONFIGURE, START_ACTIVITY: from START on the root resolves `LHCstore`. -/
+theorem C14_env_needs_store_copies_as_vars :
+    let bad := envWriteTable.map fun w => match w.src with
+      | .store _ => { w with kind := MapKind.user }
+      | _ => w
+    let root : Forest := .role { own := { defaults := [], vars := [], userVars := [] }, locals := [], task := false } .nil .nil
+    let run (table : List EnvWrite) := snapshots table [] [("lhc_period", "LHCstore")] [("lhc_period", "LHCuser")] root
+      [.trans .DEPLOY true, .trans .CONFIGURE true, .trans .START_ACTIVITY true]
+    let seen (table : List EnvWrite) := (run table).map fun p =>
+      ((chainAt p.1.t [0]).map fun c => lookup (consolidated (pathOf c [p.1.envLv])) "lhc_period").join
+    bad.all (rowOk runtimeUserKeys) = false ∧
+    seen bad = [some "LHCuser", some "LHCuser", some "LHCuser", some "LHCstore"] ∧
+    seen envWriteTable = [some "LHCuser", some "LHCuser", some "LHCuser", some "LHCuser"] := by
+  decide
+
 /-! ## non-vacuity and contrast -/
 
 /-- A realistic path: task role under an aggregator under the root, environment
@@ -510,6 +710,29 @@ example :
     lookup (consolidated p) "detector" = some "MFT" ∧ lookup (consolidated p) "cfg" = some "" ∧
     lookup (consolidated p) "n" = some "1" ∧ lookup (consolidated p) "user" = some "flp" ∧
     lookup (consolidated p) "nope" = none := by
+  decide
+
+/-- An environment's life: the configuration store says `lhc_period = LHCstore` (vars) and
+    `pdp_n_hbf_per_tf = 128` (defaults), the user supplies `lhc_period = LHCuser`; workflow root → sub → call.
+    DEPLOY, CONFIGURE, START_ACTIVITY, STOP_ACTIVITY: six moments. The call role sees the user's `lhc_period`
+    at every moment; `pdp_n_hbf_per_tf` (no user value) is the store's; the run number exists while RUNNING
+    and becomes `last_run_number`; the cleanup counter counts; time stamps are user vars of the root. -/
+example :
+    let leaf : TForest := .role { own := { defaults := [], vars := [], userVars := [] }, locals := [], task := false } .nil .nil
+    let tf : TForest := .role { own := { defaults := [], vars := [], userVars := [] }, locals := [], task := false }
+      (.role { own := { defaults := [], vars := [], userVars := [] }, locals := [], task := false } leaf .nil) .nil
+    let snaps := snapshots envWriteTable [("pdp_n_hbf_per_tf", "128")] [("lhc_period", "LHCstore")] [("lhc_period", "LHCuser")]
+      (expand tf) [.trans .DEPLOY true, .trans .CONFIGURE true, .trans .START_ACTIVITY true, .trans .STOP_ACTIVITY true]
+    let see (i : Nat) (k : String) : Option String :=
+      (snaps[i]?).bind fun p => ((chainAt p.1.t [0, 0, 0]).map fun c => lookup (consolidated (pathOf c [p.1.envLv])) k).join
+    snaps.map (·.1.st.name) = ["STANDBY", "DEPLOYED", "CONFIGURED", "RUNNING", "CONFIGURED"] ∧
+    (List.range 5).map (see · "lhc_period") = List.replicate 5 (some "LHCuser") ∧
+    (List.range 5).map (see · "pdp_n_hbf_per_tf") = List.replicate 5 (some "128") ∧
+    (List.range 5).map (see · "run_number") = [none, none, none, some "1", none] ∧
+    see 4 "last_run_number" = some "1" ∧ see 3 "__fmq_cleanup_count" = some "1" ∧
+    see 3 "run_end_time_ms" = some "" ∧ see 4 "run_end_time_ms" = some "T" ∧
+    (snaps[3]?).map (fun p => lookup p.1.t.rootLevel.vars "lhc_period") = some (some "LHCstore") ∧
+    (snaps[3]?).map (fun p => lookup p.1.t.rootLevel.userVars "lhc_period") = some none := by
   decide
 
 /-- Contrast: WITHOUT `WithOverride` the empty-is-a-definition clause would fail —
